@@ -167,9 +167,28 @@ def check(run):
             if len(run._corr) < 3:
                 t = next(t for t in range(len(seq)) if I[t] != Mo[t])
                 run._corr.append({"stream": "metadata", "sequence": seq[:t + 1], "impl": I[t], "model": Mo[t]})
+    # (d) flush, drop, re-create on the same location at once, in a loop: the file lock of the dropped instance is released
+    #     asynchronously, so this is the history in which `load` meets a busy lock (theorems: ZkProofs.C16Reopen)
+    import subprocess
+    # when the reopen theorems no longer check (e.g. `load` stopped going through the retry loop) the search for the failing
+    # history is deepened: the race is rare (about one cycle in a thousand on the pinned code)
+    reopen_broken = any("C16Reopen" in b.get("theorem_or_module", "") for b in getattr(run, "_broken", []))
+    cycles = "400" if (run.tier == "quick" and not reopen_broken) else ("6000" if not reopen_broken else "20000")
+    p = subprocess.run([zkh, "reopen_loop", cycles], stdout=subprocess.PIPE, stderr=subprocess.PIPE, timeout=6000)
+    line = p.stdout.decode().strip()
+    run.cov["reopen_loop"] = line
+    try:
+        d = dict(kv.split("=") for kv in line.split(" "))
+        lost, fails = int(d["lost_after_reopen"]), int(d["failures"])
+    except Exception:
+        lost, fails = -1, -1
+    run.cov["traces_validated_against_impl"] += 1
+    if lost != 0 or fails != 0:
+        run.violation({"property": run.pid, "kind": "impl-vs-spec", "stream": "reopen-loop", "ops": ["reopen_loop"], "impl_args": ["reopen_loop"],
+                       "detail": "flushed, acknowledged leaves were lost (or the tree could not be re-created) when the tree was re-opened right after dropping the previous instance: " + line[:200] + " | " + p.stderr.decode()[:400]})
     run.cov["metadata_sequences"] = len(mseqs)
     run.cov["fault_sequences"] = cases
     run.cov["fault_sequences_where_the_failure_fired"] = fired_total
     run.sample({"fault_sequence": lines_all[0][:10], "impl": impl[:10]})
-    run.rules.append("(c) metadata set / cleared / re-set after an injected write failure (the caller's retry) across close-reopen cycles, read back against the last acknowledged value; (a) random histories on an on-disk tree under five storage configurations (cache size, flush period, mode, compression), metadata, close, reopen with the same or a different depth argument, every leaf / subtree root / proof / metadata compared, then further operations and a second reopen; (b) for every operation of every history and EVERY storage-write position k inside it (hook H1 fails the k-th put / put_batch / flush): the operation must report an error, and after reopening every position it did not address must hold the last acknowledged value; the model predicts the exact stored state; distinct = distinct (history, operation, k)")
+    run.rules.append("(d) 400 (thorough 6000) cycles of write, flush, drop, re-create on the same location at once, each checking that the flushed leaf and leaf count are still there; (c) metadata set / cleared / re-set after an injected write failure (the caller's retry) across close-reopen cycles, read back against the last acknowledged value; (a) random histories on an on-disk tree under five storage configurations (cache size, flush period, mode, compression), metadata, close, reopen with the same or a different depth argument, every leaf / subtree root / proof / metadata compared, then further operations and a second reopen; (b) for every operation of every history and EVERY storage-write position k inside it (hook H1 fails the k-th put / put_batch / flush): the operation must report an error, and after reopening every position it did not address must hold the last acknowledged value; the model predicts the exact stored state; distinct = distinct (history, operation, k)")
     run.confirm_witnesses()
